@@ -59,7 +59,7 @@ Definition inv1 (input : list pmsg) (s : fstate) : Prop :=
 Lemma inv1_step input s e : inv1 input s -> inv1 input (fwd_step 1 s e).
 Proof.
   unfold inv1. intros [[H E]|(m & H & E)]; destruct e as [i|i]; cbn [fwd_step]; rewrite H.
-  - destruct (i <? 1) eqn:Ei; [|left; auto]. cbn [holds]. destruct (fs_q s) as [|x r] eqn:Q; [left; auto|].
+  - destruct (i <? 1) eqn:Ei; [|left; auto]. cbn [holds]. destruct (fs_q s) as [|x r] eqn:Q; [left; split; auto; rewrite Q; auto|].
     apply Nat.ltb_lt in Ei. assert (i = 0) by lia. subst i. right. exists x. cbn [fs_hold fs_out fs_q app]. auto.
   - cbn [holds]. left. auto.
   - destruct (i <? 1) eqn:Ei; [|right; eauto]. apply Nat.ltb_lt in Ei. assert (i = 0) by lia. subst i.
